@@ -19,6 +19,7 @@ use std::{
 };
 
 mod extra;
+mod oracles;
 
 #[derive(Debug, Clone)]
 pub enum Sx {
@@ -498,14 +499,14 @@ fn run_case(kind: &str, l: &[Sx]) -> String {
         "bi" => {
             let name = string(&l[3]);
             let args: Vec<Value> = l[4..].iter().map(value).collect();
-            let f = slac::stdlib::builtins().into_iter().find(|f| f.name == name).expect("builtin");
-            let r = (f.func)(&args);
-            let r2 = (f.func)(&args);
+            let (func, pure) = crate::oracles::lookup(&name);
+            let r = func(&args);
+            let r2 = func(&args);
             let show = |r: &NativeResult| match r {
                 Ok(v) => format!("ok:{}", show_value(v)),
                 Err(e) => format!("err:{}", show_nerr(e)),
             };
-            let det = if !f.pure || show(&r) == show(&r2) { "holds" } else { "FAILS" };
+            let det = if !pure || show(&r) == show(&r2) { "holds" } else { "FAILS" };
             format!("R={} ## det={}", show(&r), det)
         }
         "cmp" => {
